@@ -45,6 +45,8 @@ fn twin_cfg(t: &mut Tape) -> RunCfg {
     c.delay_law = 0;
     c.p_io_err = 0;
     c.p_write_zero = 0;
+    c.p_slow_write = 0;
+    c.p_peer_stall = 0;
     c.p_connack_fault = 0;
     c.p_session_loss = 0;
     c.p_small_limits = 0;
@@ -66,6 +68,11 @@ pub fn cfg_for(scn: Scenario, t: &mut Tape, extra: u64) -> RunCfg {
             c.p_partial_write = [200, 600, 900][t.choose(3) as usize];
             c.p_frag_read = [0, 400][t.choose(2) as usize];
             c.p_cancel = [200, 400, 700][t.choose(3) as usize];
+            if t.chance(1, 3) {
+                // timed variant: a keep-alive runs and the application does something else for
+                // 0.6 .. 1.4 s after an operation was cancelled (compared modulo PINGREQs)
+                c.keepalive_s = 1 + t.choose(2) as u16;
+            }
             c
         }
         Scenario::FragTwin(k) => {
@@ -165,6 +172,8 @@ pub fn cfg_for(scn: Scenario, t: &mut Tape, extra: u64) -> RunCfg {
             c.p_stall = 0;
             c.p_io_err = 0;
             c.p_write_zero = 0;
+            c.p_slow_write = 0;
+            c.p_peer_stall = 0;
             c.p_cancel = 0;
             c.p_partial_write = 0;
             c.p_frag_read = [0, 500, 1000][(extra % 3) as usize];
@@ -386,6 +395,17 @@ fn exec_script(session: &mut minimq::Session<'_>, script: &[SStep]) {
             if reconnect {
                 break;
             }
+            // timed variant: after a cancellation the application is busy elsewhere for a while
+            // (never in the uncancelled run, whose schedule tape is all zero)
+            with(|w| {
+                if w.cfg.keepalive_s > 0 && w.results.last().is_some_and(|r| r.ends_with(":Cancelled")) && w.s_chance(500, 1000) {
+                    let d = [600 * clock::US_PER_MS, 900 * clock::US_PER_MS, 1400 * clock::US_PER_MS][w.s_choose(3) as usize];
+                    w.probe("twin_pause_after_cancellation");
+                    w.log(|| format!("app: does something else for {d} us after the cancellation"));
+                    clock::advance_to(clock::now() + d);
+                    w.run_due_events();
+                }
+            });
             if !drain_to_idle(&mut conn) {
                 break;
             }
@@ -547,7 +567,7 @@ fn cancel_twin() {
         // ... and from the twin what the base run refused for lack of a resource: requests that
         // were cancelled before being enqueued leave the twin with more room than the base run
         let drop_tag = |k: &String| twin.not_accepted.iter().chain(base.refused_for_resources.iter()).any(|t| k.ends_with(&format!(" t{t}")));
-        let filt = |v: &Vec<Vec<String>>| -> Vec<String> { v.iter().flatten().filter(|k| !drop_tag(k) && *k != "DISCONNECT").cloned().collect() };
+        let filt = |v: &Vec<Vec<String>>| -> Vec<String> { v.iter().flatten().filter(|k| !drop_tag(k) && *k != "DISCONNECT" && *k != "PINGREQ").cloned().collect() };
         let a = filt(&base.keys);
         let b = filt(&twin.keys);
         let nd = |v: &Vec<Vec<String>>| v.iter().flatten().filter(|k| *k == "DISCONNECT").count();
